@@ -45,7 +45,7 @@ type bigMethod struct {
 	big func(m []*big.Int, a *bigArgs) string
 }
 
-func always(m []*big.Int, a *bigArgs) bool { return true }
+func always(m []*big.Int, a *bigArgs) bool   { return true }
 func yNonZero(m []*big.Int, a *bigArgs) bool { return m[a.y].Sign() != 0 }
 
 func nilness(p interface{}, isNil bool) string {
@@ -152,8 +152,14 @@ var bigMethods = []bigMethod{
 			return ""
 		}},
 	{"ModInverse", func(m []*big.Int, a *bigArgs) bool { return m[a.y].Sign() != 0 },
-		func(p []*apd.BigInt, a *bigArgs) string { r := p[a.z].ModInverse(p[a.x], p[a.y]); return nilness(r, r == nil) },
-		func(m []*big.Int, a *bigArgs) string { r := m[a.z].ModInverse(m[a.x], m[a.y]); return nilness(r, r == nil) }},
+		func(p []*apd.BigInt, a *bigArgs) string {
+			r := p[a.z].ModInverse(p[a.x], p[a.y])
+			return nilness(r, r == nil)
+		},
+		func(m []*big.Int, a *bigArgs) string {
+			r := m[a.z].ModInverse(m[a.x], m[a.y])
+			return nilness(r, r == nil)
+		}},
 	{"ModSqrt", always,
 		func(p []*apd.BigInt, a *bigArgs) string {
 			pr := apd.NewBigInt(smallPrimes[a.i%len(smallPrimes)])
@@ -278,8 +284,14 @@ var bigMethods = []bigMethod{
 			return fmt.Sprint(n, err == nil)
 		}},
 	{"Rand", func(m []*big.Int, a *bigArgs) bool { return m[a.x].Sign() > 0 },
-		func(p []*apd.BigInt, a *bigArgs) string { p[a.z].Rand(rand.New(rand.NewSource(a.seed)), p[a.x]); return "" },
-		func(m []*big.Int, a *bigArgs) string { m[a.z].Rand(rand.New(rand.NewSource(a.seed)), m[a.x]); return "" }},
+		func(p []*apd.BigInt, a *bigArgs) string {
+			p[a.z].Rand(rand.New(rand.NewSource(a.seed)), p[a.x])
+			return ""
+		},
+		func(m []*big.Int, a *bigArgs) string {
+			m[a.z].Rand(rand.New(rand.NewSource(a.seed)), m[a.x])
+			return ""
+		}},
 	// queries
 	query("Sign/BitLen/IsInt64/IsUint64",
 		func(z *apd.BigInt, p []*apd.BigInt, a *bigArgs) string {
@@ -303,11 +315,19 @@ var bigMethods = []bigMethod{
 			return s
 		}),
 	query("Cmp/CmpAbs",
-		func(z *apd.BigInt, p []*apd.BigInt, a *bigArgs) string { return fmt.Sprint(z.Cmp(p[a.x]), z.CmpAbs(p[a.x]), p[a.x].Cmp(z), p[a.x].CmpAbs(z)) },
-		func(z *big.Int, m []*big.Int, a *bigArgs) string { return fmt.Sprint(z.Cmp(m[a.x]), z.CmpAbs(m[a.x]), m[a.x].Cmp(z), m[a.x].CmpAbs(z)) }),
+		func(z *apd.BigInt, p []*apd.BigInt, a *bigArgs) string {
+			return fmt.Sprint(z.Cmp(p[a.x]), z.CmpAbs(p[a.x]), p[a.x].Cmp(z), p[a.x].CmpAbs(z))
+		},
+		func(z *big.Int, m []*big.Int, a *bigArgs) string {
+			return fmt.Sprint(z.Cmp(m[a.x]), z.CmpAbs(m[a.x]), m[a.x].Cmp(z), m[a.x].CmpAbs(z))
+		}),
 	query("Bit",
-		func(z *apd.BigInt, p []*apd.BigInt, a *bigArgs) string { return fmt.Sprint(z.Bit(0), z.Bit(a.i), z.Bit(a.i%130)) },
-		func(z *big.Int, m []*big.Int, a *bigArgs) string { return fmt.Sprint(z.Bit(0), z.Bit(a.i), z.Bit(a.i%130)) }),
+		func(z *apd.BigInt, p []*apd.BigInt, a *bigArgs) string {
+			return fmt.Sprint(z.Bit(0), z.Bit(a.i), z.Bit(a.i%130))
+		},
+		func(z *big.Int, m []*big.Int, a *bigArgs) string {
+			return fmt.Sprint(z.Bit(0), z.Bit(a.i), z.Bit(a.i%130))
+		}),
 	query("Bytes/FillBytes/Bits",
 		func(z *apd.BigInt, p []*apd.BigInt, a *bigArgs) string {
 			n := (z.BitLen() + 7) / 8
